@@ -668,8 +668,17 @@ impl Callbacks for Cb {
         // a #![no_std] crate does not load `std` at all
         let no_std = !tcx.crates(()).iter().any(|c| tcx.crate_name(*c).as_str() == "std");
         let extern_crates: Vec<String> = tcx.crates(()).iter().map(|c| tcx.crate_name(*c).to_string()).collect();
+        // size and ABI alignment of the native unsigned integers on this target (reference for C06)
+        let env0 = TypingEnv::fully_monomorphized();
+        let mut prims: Vec<String> = Vec::new();
+        for (bits, t) in [(8, tcx.types.u8), (16, tcx.types.u16), (32, tcx.types.u32), (64, tcx.types.u64), (128, tcx.types.u128)] {
+            if let Ok(l) = tcx.layout_of(env0.as_query_input(t)) {
+                prims.push(format!("{}:[{},{}]", esc(&bits.to_string()), l.size.bytes(), l.align.abi.bytes()));
+            }
+        }
         let out = obj(&[
             ("crate", esc(&krate)),
+            ("prims", format!("{{{}}}", prims.join(","))),
             ("no_std", no_std.to_string()),
             ("extern_crates", strs(&extern_crates)),
             ("fns", arr(&fns)),
